@@ -37,14 +37,18 @@ theorem c12_facts_wf : ∀ uc fl, C12.WF (genEnv uc fl) = true := by
 /-- **Facts obligation, shape part**: every `except` body of `_del_one` raises only under
     `if not self.ignore_missing`; `Delete.glomit` re-raises the PathAccessError of the parent
     fetch unless `ignore_missing`; `Delete.__init__` accepts exactly the final ops `[ . P`;
-    `_apply_for_each` flattens `layers - 1` times and then iterates; in the default `delete`
-    registrations the duck types carry `object`'s handler. -/
+    `_apply_for_each` flattens `layers - 1` times and then iterates; `TType.__stars__` counts
+    `x` / `X` over the operator slots only; no method of `Assign` / `Delete` other than `__init__`
+    stores into `self`; in the default `delete` registrations the duck types carry `object`'s
+    handler. -/
 theorem c12_facts_shape :
     Generated.delOneGuards = [("[", "not self.ignore_missing"), (".", "not self.ignore_missing"),
       ("P", "not self.ignore_missing")] ∧
     Generated.deleteGlomitCatch = (["PathAccessError"], "reraise-unless-ignore_missing") ∧
     Generated.finalOpsAllowed.lookup "Delete" = some "[.P" ∧
     Generated.applyForEachShape = "flatten layers-1 then iterate" ∧
+    Generated.starsShape = "count x/X over the operator slots __ops__[1::2]" ∧
+    Generated.specSelfWrites.filter (·.1 == "Delete") = [] ∧
     virtualLikeObject Generated.defaultReg_delete = true := by decide
 
 /-- **Same object**: whatever `delete` returns is the target it was given — for every input. -/
